@@ -167,6 +167,15 @@ class Pco(Stream):
                 ln = rng.choice([0, 0, 1, 2, 4, 16, 255, rng.below(256)])
                 us.append({"id": rng.choice([0x000d, 0x0003, 0x0010, 0x8021, 0xffff, 0, rng.below(65536)]), "len": ln, "contents": rng.bytes(ln).hex()})
             cs.append({"units": us, "wf": True})
+        # lists built with the library's own helpers (AddDNSServerIPv4Address, ...IPv6Address, AddIPv4LinkMTU, the request
+        # helpers): primary and secondary servers of one family, several lists built one after the other
+        for i in range(60 if tier == "quick" else 1500):
+            us = []
+            for _ in range(rng.choice([1, 2, 2, 3, 4, 6])):
+                how = rng.choice(["dns4", "dns4", "dns6", "dns6", "mtu", "dns4req", "dns6req", "ipalloc"])
+                ident, ln = {"dns4": (0x000d, 4), "dns6": (0x0003, 16), "mtu": (0x0010, 2), "dns4req": (0x000d, 0), "dns6req": (0x0003, 0), "ipalloc": (0x000a, 0)}[how]
+                us.append({"id": ident, "len": ln, "contents": rng.bytes(ln).hex(), "add": how})
+            cs.append({"units": us, "wf": True})
         for i in range(40):        # LengthOfContents disagreeing with Contents (not well-formed): model only
             us = [{"id": rng.below(65536), "len": rng.below(6), "contents": rng.bytes(rng.below(6)).hex()} for _ in range(rng.range(1, 4))]
             cs.append({"units": us, "wf": False})
